@@ -117,7 +117,13 @@ func privPass(w string) string { return "Pass" + w + "x123456" }
 
 const pubPass = "Pubpass123456"
 
+// the consensus parameters as compiled in: every history starts from them (the `params` op lowers them for ONE history;
+// the model starts each history from the defaults too - a history without a `params` line after one with it used to
+// inherit the lowered values on the implementation side only)
+var defaultCoinbaseMaturity, defaultMinFrozenPeriod = consensus.CoinbaseMaturity, consensus.MinFrozenPeriod
+
 func (e *WEnv) reset() {
+	consensus.CoinbaseMaturity, consensus.MinFrozenPeriod = defaultCoinbaseMaturity, defaultMinFrozenPeriod
 	e.Close()
 	os.RemoveAll(e.dir)
 	os.MkdirAll(e.dir, 0700)
